@@ -114,3 +114,15 @@ Theorem C05_ipa_batch_accepts_when_all_groups_pass :
     exists r h n, ibc_loop d (label_map cs) ev (groups qs) proofs chal hchal vtape f1 [] [] O = Ok (None, r, h, n).
 Proof. exact @ipa_batch_complete. Qed.
 Print Assumptions C05_ipa_batch_accepts_when_all_groups_pass.
+
+(* PST13's own batch verifier: the batch residual is the randomizer-weighted sum of the single-point residuals of the
+   groups, so when the single relation holds for every group (combined commitment, point, combined value, proof with one
+   witness per variable) the batch is accepted for ANY randomizers *)
+From PC Require Import Schemes.PST13 Schemes.PST13H Proofs.PST13HFacts Schemes.PST13Batch Proofs.PST13BatchFacts.
+Theorem C05_pst13_batch_accepts_when_all_groups_hold :
+  forall (FO : FieldOps) (FL : FieldLaws FO) nv betas trip proofs vtape a' dr,
+    Forall2 (fun t pf => length (pp_w pf) = nv /\ forall i, resid betas i t pf = f0) trip proofs ->
+    pst_bloop nv trip proofs vtape f1 {| pb_c := []; pb_w := repeat [] nv; pb_g := f0; pb_gam := f0 |} O = Ok (a', dr) ->
+    gvzero (gvsub (gvsub (gvsub (pb_c a') (el (pb_g a') f0)) (el f0 (pb_gam a'))) (bw_sum betas 0 (pb_w a'))) = true.
+Proof. exact @pst_batch_complete. Qed.
+Print Assumptions C05_pst13_batch_accepts_when_all_groups_hold.
